@@ -147,7 +147,8 @@ def direct_breaker_op(env, e: dict) -> None:
 def run_policy_scenario(pcfg: dict, events: list[dict], *, entry: str = "Policy", perm=None,
                         place: str = "call", async_callbacks: bool = False,
                         on_suspend=None, hook_fault=None, site_fault=None, hooks: bool = False,
-                        probe_after: bool = False, flavours: str | None = None) -> list[dict]:
+                        probe_after: bool = False, flavours: str | None = None,
+                        sugar_retry: bool = False) -> list[dict]:
     """entry: "Policy" or "AsyncPolicy".  Returns the observed event list."""
     is_async = entry.startswith("Async")
     if not pcfg["retry"]:
@@ -164,7 +165,10 @@ def run_policy_scenario(pcfg: dict, events: list[dict], *, entry: str = "Policy"
     with vtime.use_clock(env.clock):
         if pcfg["retry"]:
             ctor, call = retry_kwargs(env, pcfg["rc"], place=place)
-            retry = (rp.AsyncRetry if is_async else rp.Retry)(**ctor)
+            # (sugar_retry: the retry component is given as a RetryPolicy / AsyncRetryPolicy object)
+            rcls = ((rp.AsyncRetryPolicy if is_async else rp.RetryPolicy) if sugar_retry else
+                    (rp.AsyncRetry if is_async else rp.Retry))
+            retry = rcls(**ctor)
         else:
             retry = None
             call = dict(on_metric=env.on_metric, on_log=env.on_log,
